@@ -133,4 +133,26 @@ w('g3_parser_verbs', ['C13', 'C05', 'C03'], 'Command::parse_from_message',
   "panic or 'a' in eof or not any(' 421 ' in l for l in R['dotless']) or R['relay1'] != [] or not any(' 421 ' in l for l in R['sz']) "
   "or R['relay2'] != [':alice!~alice@127.0.0.1 PRIVMSG #pv :lower  case '] or R['relay3'] != [':alice!~alice@127.0.0.1 PRIVMSG bob ::) x:y'] "
   "or not any('PONG' in l for l in R['alive'])", more=['Command::from_message', 'Message::from_shared_str', 'Command::validate'])
+w('g3_ban_exceptions', ['C07', 'C10'], 'ChannelModes::banned',
+  'a user matching a ban mask and ONE of several exception masks is refused (or a banned user without exception is admitted / may speak)',
+  [reg('a', 'alice'), ['a', 'send', 'JOIN #be'], ['a', 'recv'], ['a', 'send', 'MODE #be +b *!*@*'], ['a', 'send', 'MODE #be +e zed!*@*'], ['a', 'send', 'MODE #be +e bob!*@*'],
+   ['a', 'send', 'MODE #be +e yan!*@*'], ['a', 'recv'], reg('b', 'bob'), reg('c', 'carol'), ['b', 'send', 'JOIN #be'], ['b', 'recv', 'bj'], ['c', 'send', 'JOIN #be'], ['c', 'recv', 'cj'],
+   ['a', 'recv'], ['b', 'send', 'PRIVMSG #be :hi'], ['a', 'recv', 'heard'], ['c', 'send', 'PRIVMSG #be :hi'], ['c', 'recv', 'cmsg']],
+  "panic or not any(l.endswith('JOIN #be') for l in R['bj']) or not any(' 474 ' in l for l in R['cj']) or R['heard'] != [':bob!~bob@127.0.0.1 PRIVMSG #be :hi'] "
+  "or not any(' 404 ' in l for l in R['cmsg'])")
+w('g3_join_quota', ['C07', 'C04', 'C16'], 'MainState::process_join',
+  'a JOIN refused because of max_joins (405) still makes the user a member / creates the channel / is announced',
+  [reg('a', 'alice'), reg('b', 'bob'), ['b', 'send', 'JOIN #jq'], ['b', 'recv'], ['a', 'send', 'JOIN #j0,#j1,#j2,#j3,#j4,#j5,#j6,#j7,#j8,#j9'], ['a', 'recv'],
+   ['a', 'send', 'JOIN #jq'], ['a', 'recv', 'full'], ['b', 'recv', 'seen'], ['a', 'send', 'JOIN #jnew'], ['a', 'recv', 'full2'], ['b', 'send', 'NAMES #jq'], ['b', 'recv', 'names'],
+   ['b', 'send', 'LIST #jnew'], ['b', 'recv', 'list'], ['a', 'send', 'PART #j0'], ['a', 'recv'], ['a', 'send', 'JOIN #jq'], ['a', 'recv', 'ok'], ['b', 'recv', 'seen2']],
+  "panic or [l.split()[1] for l in R['full']] != ['405'] or R['seen'] != [] or [l.split()[1] for l in R['full2']] != ['405'] "
+  "or any('alice' in l for l in R['names'] if ' 353 ' in l) or any(' 322 ' in l for l in R['list']) "
+  "or not any(l.endswith('JOIN #jq') for l in R['ok']) or R['seen2'] != [':alice!~alice@127.0.0.1 JOIN #jq']")
+w('g3_mode_query_text', ['C08', 'C11'], 'fmt::Display+for+ChannelModes::fmt',
+  'a MODE query (324 / 221) does not show the modes that were set (letters, key, limit, each parameter in the order of its letter)',
+  [reg('a', 'alice'), ['a', 'send', 'JOIN #mq'], ['a', 'recv'], ['a', 'send', 'MODE #mq +k sesame'], ['a', 'send', 'MODE #mq +l 10'], ['a', 'send', 'MODE #mq +nt'], ['a', 'recv'],
+   ['a', 'send', 'MODE #mq'], ['a', 'recv', 'q1'], ['a', 'send', 'MODE #mq -k'], ['a', 'recv'], ['a', 'send', 'MODE #mq'], ['a', 'recv', 'q2'],
+   ['a', 'send', 'MODE alice +iw'], ['a', 'recv'], ['a', 'send', 'MODE alice'], ['a', 'recv', 'u1']],
+  "panic or not any(' 324 ' in l and ' +tnkl sesame 10 ' in (l + ' ') for l in R['q1']) or not any(' 324 ' in l and ' +tnl 10 ' in (l + ' ') for l in R['q2']) "
+  "or not any(' 221 ' in l and l.split()[3] == '+iw' for l in R['u1'])", more=['fmt::Display+for+UserModes::fmt', 'MainState::process_mode_channel'])
 print('written')
